@@ -76,8 +76,10 @@ func (u *executeUnit) coPrepareRun(cycle int, ctx *risc.Context, app risc.Applic
 					remainingCycles--
 					return false, 0, 0, false, nil
 				}
-				line := u.mmu.fetchCacheLine(addrs[0])
-				u.mmu.pushLineToL3(comp.AlignedAddress(addrs[0]), line)
+				// Lines are aligned on their size: two lines never overlap
+				base := addrs[0] - addrs[0]%l3CacheLineSize
+				line := u.mmu.fetchCacheLine(base)
+				u.mmu.pushLineToL3(comp.AlignedAddress(base), line)
 				m, _, exists := u.mmu.getFromL3(addrs)
 				if !exists {
 					panic("cache line doesn't exist")
